@@ -22,6 +22,11 @@ CHECKS = {
          "Trusts the harness wire client/parser and the reference model; each command is issued right after SELECT so the issuing view equals the authoritative content; order inside one multi-message COPY/MOVE batch is compared as a set.",
          "DESIGN.md §4 C03"),
 
+ "C04": ("exploration",
+         "online monitor over the wire: per (mailbox name, UIDVALIDITY) a UID->message function, monotone UIDNEXT, APPENDUID/COPYUID looked up through fresh views, per-name UIDVALIDITY order; histories with expunge-of-highest-UID, failing commands, DELETE+CREATE bursts, bumps and clean restarts",
+         "Random histories (APPEND, COPY/MOVE incl. UID forms and failing ones, expunge of the highest UIDs, connector MessagesCreated, DELETE+CREATE of the same name 1-13 times in a row, UIDValidityBumped, clean server restarts on the same directories). After every step every mailbox is observed through a fresh EXAMINE (UIDVALIDITY, UIDNEXT, every UID with the X-Verif-Id marker of its message) and the monitor checks: a UID never denotes two messages within an epoch, every newly seen UID exceeds all earlier ones, UIDNEXT exceeds every UID ever seen and never decreases, APPENDUID/COPYUID name the UIDs (and UIDVALIDITY) the messages are then found under, UIDVALIDITY only changes on re-creation/bump and then to a strictly greater value.",
+         "Restarts are clean close+reopen (process kills are C07's); UIDs assigned and expunged between two observations are seen only through UIDNEXT. Trusts fresh EXAMINE views as the authoritative content.",
+         "DESIGN.md §4 C04"),
  "C05": ("exploration",
          "online trace monitor over the wire: command in flight vs untagged EXPUNGE, pending-removal bookkeeping via fresh authoritative views and the quiescence barrier, [EXPUNGEISSUED] check, duplicate-identity check in the mirror; random histories plus a removal x re-add x next-command x command-after table",
          "An observer keeps a mailbox selected while others (sessions, connector) remove messages and put them back. The monitor checks on every response: no EXPUNGE while FETCH/STORE/SEARCH (UID forms, failing ones too) is in flight; after a removal is committed and applied to the observer (barrier), the first OK command that permits expunges (NOOP, CHECK, EXPUNGE, MOVE, STATUS of the selected mailbox, APPEND to it, IDLE) announces it; the mirror never holds one message twice (re-add announced before removal); an OK FETCH/STORE/SEARCH that held removals back carries [EXPUNGEISSUED]. The table covers 4 removal kinds x 4 re-add kinds x 11-17 next commands x 2 follow-ups.",
